@@ -1,7 +1,7 @@
 #!/bin/bash
 # developer tool: run every registered check of a tier in sequence, print exit code and wall time per property
 tier=${1:-quick}
-cd /verif
+cd "$(dirname "$0")/.."
 for P in $(python3 -c "import json; print(' '.join(c['property_id'] for c in json.load(open('MANIFEST.json'))['checks']))"); do
   s=$(date +%s); out=$(python3-vt -m pvc check $P --tier $tier 2>&1); rc=$?; e=$(date +%s)
   echo "$P rc=$rc wall=$((e-s))s $(echo "$out" | grep -c '^VIOLATION') violations $(echo "$out" | grep -c '^UNDECIDED') undecided $(echo "$out" | grep -c '^KNOWN-FINDING') known | $(echo "$out" | grep '^SUMMARY' | cut -c1-200)"
